@@ -152,7 +152,14 @@ func runHarness(spec *HarnessSpec, tier string, budget time.Duration) (*harnessR
 	if s := os.Getenv("GOSYM_WORKERS"); s != "" {
 		nw, _ = strconv.Atoi(s)
 	}
+	// watchdog: a single symbolic step that never returns (e.g. an element-wise operation on a huge
+	// symbolic buffer) must not hang the check: give up as inconclusive
+	watchdog := time.AfterFunc(budget+5*time.Minute, func() {
+		fmt.Printf("   INCONCLUSIVE watchdog: %s still running %v after its budget ended (a symbolic step does not terminate)\n", spec.Name, 5*time.Minute)
+		os.Exit(3)
+	})
 	e.explore(entry, nw, t0.Add(budget))
+	watchdog.Stop()
 	r := &harnessResult{Name: spec.Name, Paths: e.paths, Cut: e.cutPaths, States: e.states, Transitions: e.transitions,
 		Obligations: e.obligations, Discharged: e.discharged, Violations: e.violations, Covers: e.covers,
 		Inconclusive: e.inconclusive, NInconcl: e.nInconclusive, Stubs: sortedKeys(e.stubs), Assumptions: sortedKeys(e.assumptions),
@@ -331,7 +338,7 @@ func cmdCheck(args []string) int {
 					if ci > 0 {
 						cdir = fmt.Sprintf("%s-alt%d", dir, ci)
 					}
-					res := nativeReplay(spec, cdir, cand.Values, cand.Choices, r.Bounds.Params)
+					res := nativeReplay(spec, cdir, cand.Values, cand.Choices, r.Bounds.Params, cand.Label)
 					replayed++
 					if res.Ran && !res.AssumeFailed {
 						for _, f := range res.Failed {
@@ -343,6 +350,11 @@ func cmdCheck(args []string) int {
 								confirmed = true
 							}
 							if strings.HasPrefix(cand.Label, "implicit: data race") && strings.HasPrefix(f, "race:") {
+								confirmed = true
+							}
+							// the use of a released pool buffer is not observable natively as such; an assertion of the
+							// same harness failing natively on the same inputs is its visible consequence
+							if strings.HasPrefix(cand.Label, "implicit: access to released object") {
 								confirmed = true
 							}
 						}
@@ -394,7 +406,7 @@ func unexpectedFailures(failed []string, vs []*Violation) bool {
 	for _, f := range failed {
 		ok := false
 		for _, v := range vs {
-			if v.Label == f || strings.HasPrefix(v.Label, "implicit:") && strings.HasPrefix(f, "panic:") || strings.HasPrefix(v.Label, "implicit: deadlock") || strings.HasPrefix(v.Label, "implicit: data race") && strings.HasPrefix(f, "race:") {
+			if v.Label == f || strings.HasPrefix(v.Label, "implicit:") && strings.HasPrefix(f, "panic:") || strings.HasPrefix(v.Label, "implicit: deadlock") || strings.HasPrefix(v.Label, "implicit: data race") && strings.HasPrefix(f, "race:") || strings.HasPrefix(v.Label, "implicit: access to released object") {
 				ok = true
 			}
 		}
@@ -426,9 +438,13 @@ type replayResult struct {
 
 // nativeReplay compiles the harness with the Go compiler (overlay, tag verif)
 // and runs it on the concrete values of a solver model.
-func nativeReplay(spec *HarnessSpec, dir string, values []uint64, choices []int64, params map[string]int) replayResult {
+func nativeReplay(spec *HarnessSpec, dir string, values []uint64, choices []int64, params map[string]int, target ...string) replayResult {
 	os.MkdirAll(dir, 0755)
-	rp := map[string]interface{}{"values": values, "choices": choices, "params": params, "harness": spec.Name, "pkg": spec.Pkg, "files": spec.Files, "repeat": spec.ReplayRepeat, "race": spec.NativeRace, "quiesce_ms": spec.NativeQuiesceMs}
+	tgt := ""
+	if len(target) > 0 && !strings.HasPrefix(target[0], "implicit:") {
+		tgt = target[0]
+	}
+	rp := map[string]interface{}{"target": tgt, "values": values, "choices": choices, "params": params, "harness": spec.Name, "pkg": spec.Pkg, "files": spec.Files, "repeat": spec.ReplayRepeat, "race": spec.NativeRace, "quiesce_ms": spec.NativeQuiesceMs}
 	os.WriteFile(filepath.Join(dir, "replay.json"), mustJSON(rp), 0644)
 	return runReplayDir(dir)
 }
@@ -447,6 +463,7 @@ func runReplayDir(dir string) replayResult {
 		Repeat  int      `json:"repeat"`
 		Race    bool     `json:"race"`
 		QuiesceMs int    `json:"quiesce_ms"`
+		Target    string `json:"target"`
 	}
 	json.Unmarshal(b, &rp)
 	spec := &HarnessSpec{Name: rp.Harness, Pkg: rp.Pkg, Files: rp.Files}
@@ -492,6 +509,9 @@ func TestVrtReplay(t *testing.T) {
 	}
 	if rp.QuiesceMs > 0 {
 		cmd.Env = append(cmd.Env, fmt.Sprintf("VRT_QUIESCE_MS=%d", rp.QuiesceMs))
+	}
+	if rp.Target != "" && rp.Repeat > 1 {
+		cmd.Env = append(cmd.Env, "VRT_TARGET="+rp.Target)
 	}
 	out, _ := cmd.CombinedOutput()
 	res.Output = string(out)
